@@ -66,12 +66,10 @@ def judge(case, real, extra, cache):
             out.append(("exception escaped service()", "none", real["esc"], None))
         return out
     first = raised[0] if raised else None
-    base = any(x[0] == "XB" for x in raised)   # a BaseException was raised somewhere (call, iteration, close)
-    # nothing escapes the ladder
+    # nothing escapes the ladder (whatever the exception class)
     if real["esc"] != "none":
-        kf = "kf_c09_baseexception" if (real["esc"] == "XB" and base) else None
         out.append(("exception escaped HTTPChannel.service(): no close decision, request never popped",
-                    "none", real["esc"], kf))
+                    "none", real["esc"], None))
         return out
     if first is None or first[0] == "CD":
         # no application failure (or the application itself raised ClientDisconnected: treated as a disconnect)
@@ -82,13 +80,9 @@ def judge(case, real, extra, cache):
     if writes_then == 0:
         # fault before any output: one complete 500, then close
         want = reference_500(case, cache)
-        # the exception that finally propagates is the last one raised (close() in the finally
-        # block replaces an earlier one)
-        swallowed = raised[-1][0] == "XO" and not case["cfg"]["logsock"]
         if case["disc"] is None:
             if wire != want:
-                kf = "kf_c09_oserror_swallowed" if (swallowed and wire == b"") else None
-                out.append(("failure before any output did not produce the complete 500", repr(want[:60]), repr(wire[:60]), kf))
+                out.append(("failure before any output did not produce the complete 500", repr(want[:60]), repr(wire[:60]), None))
         if real["close"] != "1":
             out.append(("failure before any output but the connection is kept", "close", "keep", None))
     else:
